@@ -50,7 +50,9 @@ func VerifH_C09_L1_adoption() {
 			if err == nil && !marked {
 				vz.Finding("F09-1")
 			}
-			vz.Assert(err != nil || marked, "C09/L1/foreign-occupant-ends-in-AdmissionError")
+			// (the occupant is visible in the cache and no call fails on this path: nothing is
+			// transient here, so "retry later" would be retrying for ever)
+			vz.Assert(marked, "C09/L1/foreign-occupant-ends-in-AdmissionError")
 		}
 	}
 	if p.admRefused {
